@@ -555,3 +555,832 @@ def translate(run: Run) -> bool:
     except (Untranslatable, Untraceable, KeyError, OSError, SyntaxError, AttributeError, TypeError, StopIteration) as e:
         run.broken("translate:GenC10", f"{type(e).__name__}: {e}", kind="broken-translation")
         return False
+
+
+# ============================================================================== implementation side: real states
+
+REL = 1e-5            # float32 allowance of the oracles: |a - b| <= REL * (1 + scale)
+ORTHO_REL = 1e-5      # |w . (G o d)| <= ORTHO_REL * |w| * |G o d|
+MEAN_ABS = 1e-6       # |mean(xi)| after the step (times max(1, max |xi|) before it)
+
+_BASE: dict = {}
+
+
+def _val(x):
+    """plain tensor of a state value (WeightedTensor -> its values)"""
+    return x.value if (hasattr(x, "weight") and hasattr(x, "value")) else x
+
+
+def _lst(t):
+    return _val(t).detach().double().tolist()
+
+
+def has_sources(st) -> bool:
+    return "sources" in st.dag and "mixing_matrix" in st.dag
+
+
+def base_state(kind, n_feat, sd, n_ind=5, seed=3, missing=0.1):
+    """A real model of `kind`, initialised on a synthetic cohort the way `fit` does, and a fresh clone of its state holding the
+    data and individual latent variables.  Cached per configuration (the clone is new at every call)."""
+    import torch
+    from harness import synth
+    from leaspy.io.data.dataset import Dataset
+    key = (kind, n_feat, sd, n_ind, seed, missing)
+    if key not in _BASE:
+        df = None
+        for s in range(seed, seed + 20):    # a joint cohort needs an observed and a censored event to be initialised
+            df = synth.make_df(n_ind=n_ind, n_feat=n_feat, joint=(kind == "joint"), seed=s, kind=kind, missing=missing)
+            if kind != "joint" or n_ind < 3 or 1 <= df.groupby("ID")["EVENT_BOOL"].first().sum() <= n_ind - 1:
+                break
+        m = synth.make_model(kind, n_feat, sd)
+        ds = Dataset(synth.make_data(df, kind))
+        m.initialize(ds)
+        st = m.state.clone(disable_auto_fork=True)
+        m.put_data_variables(st, ds)
+        torch.manual_seed(seed)
+        m.put_individual_parameters(st, ds)
+        _BASE[key] = (m, ds, st)
+    m, ds, st = _BASE[key]
+    return m, ds, st.clone(disable_auto_fork=True)
+
+
+def latent_names(st):
+    from leaspy.variables.specs import IndividualLatentVariable, PopulationLatentVariable
+    by = st.dag.sorted_variables_by_type
+    return sorted(by.get(PopulationLatentVariable, {})), sorted(by.get(IndividualLatentVariable, {}))
+
+
+# range of the random values per variable name (quantised to k/64: exactly representable in float32)
+RANGES = {"log_g": (-2.0, 3.0), "g": (0.0, 1.0), "log_v0": (-7.0, -1.0), "betas": (-1.5, 1.5), "deltas": (-2.0, 2.0),
+          "n_log_nu": (-4.0, -1.0), "log_rho": (0.0, 1.5), "zeta": (-1.0, 1.0), "xi": (-1.5, 1.5), "tau": (64.0, 76.0),
+          "sources": (-2.0, 2.0)}
+
+
+def _draw(rng, lo, hi, shape, q=64):
+    import torch
+    n = 1
+    for s in shape:
+        n *= s
+    return torch.tensor([rng.randint(int(lo * q), int(hi * q)) / q for _ in range(n)], dtype=torch.float64).reshape(shape)
+
+
+# shared-speed: g_metric = 1 / (gamma (1 - gamma))^2 is computed by the code in float32 with the cancellation 1 - gamma; its relative
+# error grows like 2^-23 / min(gamma, 1 - gamma), gamma = 1 / (1 + g exp(-delta)): positions are kept where this stays below the
+# oracle's allowance (a float-conditioning precondition of the test, not of the property)
+RANGES_SHARED = {"log_g": (-1.0, 2.0), "deltas": (-1.0, 1.0)}
+
+
+def random_values(st, rng, style="plain", kind=None):
+    """random values for every population and individual latent variable of the state: {name: nested list}"""
+    pop, ind = latent_names(st)
+    out = {}
+    for n in pop + ind:
+        old = st[n]
+        lo, hi = RANGES.get(n, (-1.0, 1.0))
+        if kind == "shared_speed_logistic" and n in RANGES_SHARED:
+            lo, hi = RANGES_SHARED[n]
+        if n == "log_v0" and style == "wide":
+            lo, hi = -10.0, -1.0
+        if n == "log_g" and style == "wide" and kind != "shared_speed_logistic":
+            lo, hi = -3.0, 4.0
+        v = _draw(rng, lo, hi, tuple(old.shape))
+        if n == "xi":
+            if style == "equal":
+                v = v * 0 + v.reshape(-1)[0]
+            v = v + rng.choice([0.0, 0.75, -0.75, 2.0, -2.0, 0.25])
+        if n == "log_v0" and style == "first-dominant" and v.numel() > 1:
+            v[0] = -1.0
+            v[1:] = v[1:].clamp(max=-8.0) - 2
+        out[n] = v.tolist()
+    return out
+
+
+def put_values(st, values):
+    """through the state API (`state[name] = tensor`), keeping the dtype and shape the model itself uses"""
+    import torch
+    with st.auto_fork(None):
+        for n, v in values.items():
+            old = st[n]
+            st[n] = torch.tensor(v, dtype=torch.float64).to(old.dtype).reshape(old.shape)
+
+
+def metric_direction(kind, st):
+    """G o d in float64, recomputed from the two quantities the TRAJECTORY itself uses (not from the nodes the basis is wired
+    to): `metric` = the coefficient the trajectory puts on the space shift (C10_metric_is_trajectory_metric) and `v0`.
+    logistic / joint / linear: logit or value = metric (v0 rt + w) ..., so G = metric^2 and d = v0 (linear: metric = 1);
+    shared-speed: logit = metric w + rt + ..., the direction of progression is (1,..,1) in logit space and G o d is collinear
+    to `metric`."""
+    metric = _val(st["metric"]).double().reshape(-1)
+    if kind in ("logistic", "joint", "linear"):
+        return metric ** 2 * _val(st["v0"]).double().reshape(-1)
+    if kind == "shared_speed_logistic":
+        return metric
+    raise ValueError(kind)
+
+
+def ortho_failures(kind, st, when):
+    """(b): every row of mixing_matrix and every individual space shift is orthogonal to G o d"""
+    import torch
+    out, info = [], {}
+    if not has_sources(st):
+        return out, info
+    D = metric_direction(kind, st).reshape(-1)
+    if not torch.isfinite(D).all() or float(D.norm()) == 0.0:
+        return [(f"ortho:{kind}:direction-not-finite", f"G o d is not finite / zero ({when})", None, D.tolist())], info
+    for node, label in (("mixing_matrix", "mixing-row"), ("space_shifts", "space-shift")):
+        try:
+            W = _val(st[node]).double()
+        except Exception as e:
+            out.append((f"ortho:{kind}:raises:{type(e).__name__}", f"reading {node} raised {type(e).__name__}: {e} ({when})", None, None))
+            continue
+        if not torch.isfinite(W).all():
+            out.append((f"ortho:{kind}:{label}-not-finite", f"{node} has non-finite entries ({when})", None, None))
+            continue
+        nw = W.norm(dim=1)
+        r = (W @ D).abs() / (nw * D.norm()).clamp(min=1e-300)
+        r = torch.where(nw > 0, r, torch.zeros_like(r))
+        info[label] = float(r.max())
+        info[label + "-nontrivial"] = bool((nw > 0).any())
+        if float(r.max()) > ORTHO_REL:
+            i = int(r.argmax())
+            out.append((f"ortho:{kind}:{label}-not-orthogonal",
+                        f"row {i} of {node} is not orthogonal, in the model's metric, to the direction of progression ({when}): "
+                        f"|w.Gv0| / (|w||Gv0|) = {float(r[i]):.3g}", f"<= {ORTHO_REL}", float(r[i])))
+    return out, info
+
+
+def gauge_nodes(kind):
+    return ["model", "nll_attach_ind"] + (["nll_attach_y_ind", "nll_attach_event_ind"] if kind == "joint" else [])
+
+
+def snapshot(st, kind):
+    return {n: _val(st[n]).detach().clone() for n in gauge_nodes(kind)}
+
+
+def attach_scale(st, kind, model):
+    """sum over the observed entries of one individual of the absolute value of every term of its attachment"""
+    import torch
+    y = st["y"]
+    w = (y.weight if y.weight is not None else torch.ones_like(y.value)).double()
+    yv = torch.where(w > 0, y.value.double(), torch.zeros_like(w))
+    sig = st["noise_std"].double().reshape(-1)
+    terms = ((yv - torch.nan_to_num(model.double())) / sig) ** 2 / 2 + sig.log().abs() + 0.9189385332
+    return (terms * (w > 0)).sum(dim=(1, 2))
+
+
+def compare(name, a, b, scale=None, extra=None):
+    """(index, before, after, ratio) of the worst entry; `a` (after) equals `b` (before) when ratio <= REL, ratio being
+    |a - b| / (1 + max(|b|, scale) + extra / REL): `extra` is an absolute allowance (first-order propagation of the float32
+    rounding of the two sums the step forms, see `rounding_allowance`)"""
+    import torch
+    if tuple(a.shape) != tuple(b.shape):
+        return ("shape", list(b.shape), list(a.shape), float("inf"))
+    a, b = a.double(), b.double()
+    fa, fb = torch.isfinite(a), torch.isfinite(b)
+    if bool((fa != fb).any()):
+        i = int((fa != fb).reshape(-1).nonzero()[0])
+        return (i, float(b.reshape(-1)[i]), float(a.reshape(-1)[i]), float("inf"))
+    nf = ~fb
+    if bool(nf.any()) and not bool(((a[nf] == b[nf]) | (torch.isnan(a[nf]) & torch.isnan(b[nf]))).all()):
+        return ("non-finite", None, None, float("inf"))
+    if not bool(fb.any()):
+        return (0, None, None, 0.0)
+    s = 1 + (b.abs() if scale is None else torch.maximum(b.abs(), scale.double().reshape(b.shape) if scale.dim() == b.dim() else scale.double()))
+    if extra is not None:
+        s = s + torch.nan_to_num(extra.double().reshape(b.shape), nan=0.0, posinf=0.0) / REL
+    r = torch.where(fb, (a - b).abs() / s, torch.zeros_like(a))
+    i = int(r.reshape(-1).argmax())
+    return (i, float(b.reshape(-1)[i]), float(a.reshape(-1)[i]), float(r.max()))
+
+
+def rounding_allowance(kind, st, model):
+    """What float32 rounding alone may do to a trajectory value through the step, to first order: the step replaces log_v0 by
+    fl(log_v0 + m) and xi by fl(xi - m) (absolute error <= 2^-24 (|log_v0| + |xi| + 2|m| + 2) on the exponent of v0 exp(xi)),
+    and d model / d log_v0 = model (1 - model) |T| (logistic, joint) or |T| (linear), T = metric v0 rt.  Times 4 for the
+    exp / product roundings (only matters for ill-conditioned entries, |T| >> 1 compensated by the space shift).  With sources the
+    basis is recomputed from v0 exp(m) (entries of the unit columns move by a few 2^-24, absolutely) and the space shifts
+    w = sources (B betas)^T with it: 6 * 2^-24 * sum_s |sources_is| sum_r |betas_rs| on every w_ik, and
+    d model / d w = model (1 - model) metric (logistic, joint) or 1 (linear)."""
+    import torch
+    xi = _val(st["xi"]).double().reshape(-1)
+    lv = _val(st["log_v0"]).double().reshape(-1)
+    mean = float(xi.mean())
+    rt = torch.nan_to_num(_val(st["rt"]).double(), nan=0.0, posinf=0.0, neginf=0.0)
+    rt = rt.reshape(rt.shape[0], rt.shape[1])
+    T = (_val(st["metric"]).double().reshape(-1) * _val(st["v0"]).double().reshape(-1))[None, None, :] * rt[:, :, None]
+    eps = 4 * 2.0 ** -24 * (lv.abs()[None, None, :] + xi.abs()[:, None, None] + 2 * abs(mean) + 2)
+    b = torch.nan_to_num(model.double(), nan=0.0)
+    slope = torch.ones_like(b) if kind == "linear" else (b * (1 - b)).abs()
+    out = eps * slope * T.abs()
+    if has_sources(st):
+        dw = 6 * 2.0 ** -24 * (_val(st["sources"]).double().abs() @ _val(st["betas"]).double().abs().sum(dim=0))
+        out = out + slope * (_val(st["metric"]).double().reshape(-1)[None, None, :] * dw[:, None, None])
+    return out
+
+
+def recentre_failures(kind, m, st, call=None):
+    """(a): run the real step on `st`; returns (failures, info).  `call(st)` performs the step (default: the method `fit` calls)."""
+    import torch
+    out, info = [], {}
+    try:
+        before = snapshot(st, kind)
+        scale = attach_scale(st, kind, before["model"])
+        allow = rounding_allowance(kind, st, before["model"])
+        y = st["y"]
+        sig = _val(st["noise_std"]).double().reshape(-1)
+        resid = torch.nan_to_num((y.value.double() - before["model"].double()).abs()) * ((y.weight if y.weight is not None else torch.ones_like(y.value)) > 0)
+        allow_attach = (resid / sig ** 2 * allow).sum(dim=(1, 2))
+        xi0 = st["xi"].detach().clone()
+    except Exception as e:
+        return [(f"recentre:{kind}:state-unreadable:{type(e).__name__}", f"reading the state before the step raised {type(e).__name__}: {e}", None, None)], info
+    try:
+        (call or m.compute_sufficient_statistics)(st)
+        after = snapshot(st, kind)
+        xi1 = st["xi"].detach().clone()
+    except Exception as e:
+        return [(f"recentre:{kind}:raises:{type(e).__name__}", f"compute_sufficient_statistics raised {type(e).__name__}: {e}", None, None)], info
+    info["mean_before"] = float(xi0.double().mean())
+    info["mean_after"] = float(xi1.double().mean())
+    lim = MEAN_ABS * max(1.0, float(xi0.abs().max()))
+    if tuple(xi1.shape) != tuple(xi0.shape):
+        out.append((f"recentre:{kind}:xi-shape-changed", f"xi has shape {list(xi1.shape)} after the step, {list(xi0.shape)} before", list(xi0.shape), list(xi1.shape)))
+    elif not abs(info["mean_after"]) <= lim:
+        out.append((f"recentre:{kind}:xi-mean-nonzero", f"mean(xi) = {info['mean_after']:.3g} after the step (before: {info['mean_before']:.3g})",
+                    f"|mean| <= {lim:.1g}", info["mean_after"]))
+    for n in gauge_nodes(kind):
+        sc = None
+        if n in ("nll_attach_ind", "nll_attach_y_ind"):
+            sc = scale + (before["nll_attach_event_ind"].double().abs().reshape(scale.shape) if (n == "nll_attach_ind" and kind == "joint") else 0)
+            sc = torch.nan_to_num(sc, posinf=0.0)
+        c = compare(n, after[n], before[n], sc, extra=(allow if n == "model" else (allow_attach if sc is not None else None)))
+        info["dev:" + n] = c[3]
+        if not c[3] <= REL:
+            what = {"model": "a trajectory value", "nll_attach_event_ind": "an event likelihood term"}.get(n, "an attachment term")
+            out.append((f"recentre:{kind}:{n}-changed", f"{what} ({n}, flat index {c[0]}) changed through the re-centring step: {c[1]!r} -> {c[2]!r}",
+                        c[1], c[2]))
+    return out, info
+
+
+def eval_state(inp, collect=None):
+    """Everything the oracles say about one explicit state (`inp` = configuration + cohort + values of every latent variable).
+    Returns (failures, info); deterministic in `inp`, used by the search, the shrinker and the replay alike."""
+    kind, nf, sd = inp["kind"], inp["n_feat"], inp["source_dimension"]
+    c = inp["cohort"]
+    try:
+        m, ds, st = base_state(kind, nf, sd, c["n_ind"], c["seed"], c.get("missing", 0.1))
+        put_values(st, inp["values"])
+    except Exception as e:
+        return [(f"state:{kind}:setup-raises:{type(e).__name__}", f"building the state raised {type(e).__name__}: {e}", None, None)], {}
+    fails, info = [], {}
+    f, i = ortho_failures(kind, st, "values as given")
+    fails += f
+    info.update({"ortho:" + k: v for k, v in i.items()})
+    if collect is not None:
+        collect(kind, m, st, inp)
+    if kind in KINDS_GAUGE:
+        f, i = recentre_failures(kind, m, st)
+        fails += f
+        info.update(i)
+        if not any(s.startswith(f"recentre:{kind}:raises") for s, *_ in f):
+            f, i = ortho_failures(kind, st, "after the re-centring step")
+            fails += [x for x in f if x[0] not in {y[0] for y in fails}]
+            if collect is not None:
+                collect(kind, m, st, inp, after=True)
+    return fails, info
+
+
+def shrink_state(inp, sig):
+    """smaller input with the same failure signature: fewer individuals, then simpler values"""
+    import copy
+
+    def still(x):
+        try:
+            return any(s == sig for s, *_ in eval_state(x)[0])
+        except Exception:
+            return False
+    cur = copy.deepcopy(inp)
+    for n_ind in (1, 2, 3):
+        if n_ind < cur["cohort"]["n_ind"]:
+            x = copy.deepcopy(cur)
+            x["cohort"]["n_ind"] = n_ind
+            for k, v in x["values"].items():
+                if k in ("xi", "tau", "sources"):
+                    x["values"][k] = v[:n_ind]
+            if still(x):
+                cur = x
+                break
+    def mapped(v, f):
+        return [mapped(e, f) for e in v] if isinstance(v, list) else f(v)
+    for name, f in [("sources", lambda e: 0.0), ("sources", lambda e: 1.0), ("betas", lambda e: 1.0), ("tau", lambda e: 70.0),
+                    ("zeta", lambda e: 0.0), ("log_g", lambda e: 0.0), ("g", lambda e: 0.5), ("deltas", lambda e: 0.0),
+                    ("log_v0", lambda e: -4.0), ("log_rho", lambda e: 0.0), ("n_log_nu", lambda e: -3.0),
+                    ("xi", lambda e: float(round(e))), ("xi", lambda e: 1.0)]:
+        if name in cur["values"]:
+            x = copy.deepcopy(cur)
+            x["values"][name] = mapped(x["values"][name], f)
+            if x != cur and still(x):
+                cur = x
+    return cur
+
+
+STATE_CONFIGS = [("logistic", 1, None), ("logistic", 3, 0), ("logistic", 3, 2), ("logistic", 2, 1), ("logistic", 4, 3),
+                 ("linear", 1, None), ("linear", 3, 0), ("linear", 3, 1), ("linear", 4, 2),
+                 ("joint", 1, None), ("joint", 3, 1), ("joint", 3, 2),
+                 ("shared_speed_logistic", 3, 1), ("shared_speed_logistic", 4, 2), ("shared_speed_logistic", 2, 1)]
+
+
+def search_states(run: Run, T, thorough: bool):
+    rounds = 120 if thorough else 7
+    styles = ["plain", "plain", "wide", "equal", "first-dominant", "plain", "wide"]
+    seen_sig = set()
+    for kind, nf, sd in STATE_CONFIGS:
+        rng = run.rng("state", kind, nf, sd)
+        for r in range(rounds):
+            style = styles[r % len(styles)]
+            cohort = dict(n_ind=5 if r % 3 else 3, seed=3 + (r % 2), missing=0.1)
+            try:
+                m, ds, st = base_state(kind, nf, sd, **cohort)
+            except Exception as e:
+                run.fail(f"state:{kind}:setup-raises:{type(e).__name__}", f"initialising a {kind} model raised {type(e).__name__}: {e}",
+                         dict(what="state", kind=kind, n_feat=nf, source_dimension=sd, cohort=cohort, values={}))
+                break
+            inp = dict(what="state", kind=kind, n_feat=nf, source_dimension=sd, cohort=cohort, style=style,
+                       values=random_values(st, rng, style, kind))
+            want_t3 = T is not None and r < (1 if not thorough else 4)
+            fails, info = eval_state(inp, collect=(T.collect if want_t3 else None))
+            src = bool(sd)
+            m_shift = abs(info.get("mean_before", 0.0))
+            nontrivial = (kind in KINDS_GAUGE and m_shift > 1e-3) or (src and info.get("ortho:mixing-row-nontrivial", False))
+            run.case(("state", kind, nf, sd, json.dumps(inp["values"], sort_keys=True), json.dumps(cohort, sort_keys=True)), nontrivial=nontrivial)
+            run.count("kind", f"{kind}/{'sources' if src else 'no-sources'}")
+            run.count("style", style)
+            if kind in KINDS_GAUGE:
+                run.count("mean_xi_before", "0" if m_shift <= 1e-3 else ("<=1" if m_shift <= 1 else ">1"))
+            for k in ("dev:model", "dev:nll_attach_ind", "dev:nll_attach_event_ind", "ortho:mixing-row", "ortho:space-shift"):
+                if k in info and info[k] == info[k] and info[k] != float("inf"):
+                    run.extra.setdefault("max_observed", {})
+                    run.extra["max_observed"][k] = max(run.extra["max_observed"].get(k, 0.0), info[k])
+            if len(run.samples) < 3 and src and kind in KINDS_GAUGE and r == 0:
+                run.sample(dict(inp, observed=info))
+            for sig, what, exp_v, obs in fails:
+                small = inp
+                if sig not in seen_sig and sig not in run.known:
+                    seen_sig.add(sig)
+                    small = shrink_state(inp, sig)
+                    again = [x for x in eval_state(small)[0] if x[0] == sig]
+                    if again:
+                        sig, what, exp_v, obs = again[0]
+                    else:
+                        small = inp
+                run.fail(sig, what, small, expected=exp_v, observed=obs)
+
+
+# ============================================================================== T3: kernel-checked enclosures
+
+LIST_FUNS = ("vmul vzeros_like vset vget vnorm vsub vadd vscale vdivs msub eye outer mcat_cols cols_before cols_from dot map nth length "
+             "repeat firstn skipn app Nat.add transpose matmul col ncols seq mean rsum center shift fold_right INR sigmoid tpow Rmax Rmin")
+
+T3_HEADER_TMPL = """From Coq Require Import Reals List Lra.
+From Interval Require Import Tactic.
+From Leaspy Require Import Base.RAux Formulas.Ortho Formulas.Gauge.
+From LeaspyGen Require Import GenC10.
+Import ListNotations.
+Open Scope R_scope.
+Lemma sign_pos_eq x : 0 < x -> sign x = 1.
+Proof. intros H. unfold sign. destruct (Rlt_dec 0 x); [reflexivity|contradiction]. Qed.
+Lemma sign_neg_eq x : x < 0 -> sign x = -1.
+Proof. intros H. unfold sign. destruct (Rlt_dec 0 x); [lra|]. destruct (Rlt_dec x 0); [reflexivity|contradiction]. Qed.
+Lemma sign_zero_eq x : x = 0 -> sign x = 0.
+Proof. intros H. unfold sign. destruct (Rlt_dec 0 x); [lra|]. destruct (Rlt_dec x 0); [lra|reflexivity]. Qed.
+Ltac itv := interval with (i_prec 60).
+Ltac lr := first [ lra | (intro; lra) ].
+(* torch.sign: the side is PROVED (interval / lra), never assumed *)
+Ltac sgn := repeat match goal with
+  | |- context [sign ?x] => first [ rewrite (sign_pos_eq x) by itv | rewrite (sign_neg_eq x) by itv | rewrite (sign_zero_eq x) by lra ]
+  end.
+Ltac flat t := lazymatch t with context [Rlt_dec _ _] => fail | context [Rle_dec _ _] => fail | context [Req_EM_T _ _] => fail | _ => idtac end.
+Ltac lt_yes a b := destruct (Rlt_dec a b) as [_|Hn]; [ | exfalso; apply Hn; assumption].
+Ltac lt_no a b := destruct (Rlt_dec a b) as [Hn|_]; [exfalso; match goal with Hd : b <= a |- _ => exact (Rlt_irrefl _ (Rlt_le_trans _ _ _ Hn Hd)) end | ].
+Ltac le_yes a b := destruct (Rle_dec a b) as [_|Hn]; [ | exfalso; apply Hn; assumption].
+Ltac le_no a b := destruct (Rle_dec a b) as [Hn|_]; [exfalso; match goal with Hd : b < a |- _ => exact (Rlt_irrefl _ (Rlt_le_trans _ _ _ Hd Hn)) end | ].
+(* one innermost condition of a generated definition, decided by proving which side holds *)
+Ltac decide1 :=
+  match goal with
+  | |- context [Rlt_dec ?a ?b] => flat a; flat b;
+      first [ (assert (a < b) as Hd by itv; lt_yes a b; clear Hd) | (assert (b <= a) as Hd by itv; lt_no a b; clear Hd)
+            | (assert (a < b) as Hd by lr; lt_yes a b; clear Hd) | (assert (b <= a) as Hd by lr; lt_no a b; clear Hd) ]
+  | |- context [Rle_dec ?a ?b] => flat a; flat b;
+      first [ (assert (a <= b) as Hd by itv; le_yes a b; clear Hd) | (assert (b < a) as Hd by itv; le_no a b; clear Hd)
+            | (assert (a <= b) as Hd by lr; le_yes a b; clear Hd) | (assert (b < a) as Hd by lr; le_no a b; clear Hd) ]
+  | |- context [Req_EM_T ?a ?b] => flat a; flat b;
+      first [ (assert (a = b) as Hd by lr; destruct (Req_EM_T a b) as [_|Hn]; [clear Hd | exfalso; exact (Hn Hd)])
+            | (assert (a <> b) as Hd by lr; destruct (Req_EM_T a b) as [Hn|_]; [exfalso; exact (Hd Hn) | clear Hd]) ]
+  end.
+Ltac t3 := cbv beta iota zeta delta [GEN_NAMES LIST_FUNS]; sgn; repeat decide1; unfold INFINITY_c; interval with (i_prec 60).
+"""
+
+
+def _R(x) -> str:
+    f = frac(x)
+    if f.denominator == 1:
+        return f"({f.numerator})"
+    return f"({f.numerator} / {f.denominator})"
+
+
+def _Rl(xs) -> str:
+    return "[" + "; ".join(_R(x) for x in xs) + "]"
+
+
+def _Rm(rows) -> str:
+    return "[" + "; ".join(_Rl(r) for r in rows) + "]"
+
+
+def _tolq(scale: float, rel: float) -> Fraction:
+    t = rel * (1.0 + abs(scale))
+    if not math.isfinite(t):
+        return Fraction(10) ** 308
+    e = math.floor(math.log10(t))
+    return Fraction(int(t / 10 ** e) + 1) * Fraction(10) ** e
+
+
+class T3:
+    """collects `Rabs (<generated definition on exact inputs> - <value the code produced>) <= tol` statements"""
+
+    def __init__(self, run: Run, sigs: dict):
+        self.run = run
+        self.sigs = sigs
+        self.lemmas: list[str] = []
+        self.meta: list[dict] = []
+        self.rng = run.rng("t3")
+        self.thorough = run.tier == "thorough"
+        self.before = None
+
+    def add(self, expr: str, obs, tol: Fraction, **meta):
+        o = float(obs)
+        if not math.isfinite(o):
+            return
+        self.lemmas.append(f"Rabs ({expr} - {_R(o)}) <= {_R(tol)}")
+        self.meta.append(dict(meta, observed=o))
+        self.run.count("t3", meta.get("what", "?"))
+
+    # ---- entries of a real state
+    def arg(self, p, st, i, j, k):
+        def one(name, idx=None):
+            v = _val(st[name]).reshape(-1)
+            return v[0] if (idx is None or v.numel() == 1) else v[idx]
+        if p in ("log_g", "g", "log_v0", "noise_std", "deltas_padded"):
+            return one(p, k)
+        if p in ("xi", "tau", "survival_shifts"):
+            return _val(st[p])[i].reshape(-1)[0]
+        if p in ("log_rho", "n_log_nu"):
+            return one(p)
+        if p == "t":
+            return st["t"].value[i, j]
+        if p == "y":
+            return st["y"].value[i, j, k]
+        if p == "space_shifts":
+            return _val(st["space_shifts"])[i, k]
+        if p == "event_time":
+            return st["event"].value[i].reshape(-1)[0]
+        if p == "event_bool":
+            return st["event"].weight[i].reshape(-1)[0].double()
+        raise Untranslatable(f"no state value for parameter {p}")
+
+    def app(self, name, st, i=0, j=0, k=0):
+        return "(" + " ".join([name] + [_R(self.arg(p, st, i, j, k)) for p in self.sigs[name]]) + ")"
+
+    def collect(self, kind, m, st, inp, after=False):
+        import torch
+        k_ = SHORT[kind]
+        src = has_sources(st)
+        sfx = "_src" if src else ""
+        cfg = dict(kind=kind, n_feat=inp["n_feat"], source_dimension=inp["source_dimension"])
+        if after:
+            # the script: xi' = xi - mean xi, log_v0' = log_v0 + mean xi (joint: n_log_nu too), on the values read before
+            b = self.before
+            if b is None or kind not in KINDS_GAUGE:
+                return
+            xs = _Rl(b["xi"])
+            xi1 = _val(st["xi"]).reshape(-1)
+            i = self.rng.randrange(len(b["xi"]))
+            self.add(f"nth {i} (center {xs}) 0", xi1[i], _tolq(1, 2e-6), what="script:xi", **cfg)
+            for name in ("log_v0",) + (("n_log_nu",) if kind == "joint" else ()):
+                v1 = _val(st[name]).reshape(-1)
+                k = self.rng.randrange(len(b[name]))
+                self.add(f"nth {k} (shift (mean {xs}) {_Rl(b[name])}) 0", v1[k], _tolq(float(v1[k]), 2e-6), what=f"script:{name}", **cfg)
+            self.before = None
+            return
+        if kind in KINDS_GAUGE:
+            self.before = {n: _val(st[n]).reshape(-1).double().tolist() for n in ("xi", "log_v0") + (("n_log_nu",) if kind == "joint" else ())}
+        tw = st["t"].weight if st["t"].weight is not None else torch.ones_like(st["t"].value)
+        yw = st["y"].weight if st["y"].weight is not None else torch.ones_like(st["y"].value)
+        n_ind, n_vis = tw.shape[0], tw.shape[1]
+        n_feat = yw.shape[2]
+        model = _val(st["model"])
+        traj = "gen_shared_traj_src" if kind == "shared_speed_logistic" else f"gen_{k_}_traj{sfx}"
+        visits = [(i, j) for i in range(n_ind) for j in range(n_vis) if float(tw[i, j]) > 0]
+        if traj in self.sigs and (src or kind != "shared_speed_logistic"):
+            for (i, j) in self.rng.sample(visits, min(4 if self.thorough else 3, len(visits))):
+                k = self.rng.randrange(n_feat)
+                o = model[i, j, k]
+                self.add(self.app(traj, st, i, j, k), o, _tolq(float(o), 5e-6), what="trajectory", index=[i, j, k], **cfg)
+        if kind in KINDS_GAUGE:
+            att = f"gen_{k_}_attach{sfx}"
+            node = "nll_attach_y_ind" if kind == "joint" else "nll_attach_ind"
+            nobs = [(int((yw[i] > 0).sum()), i) for i in range(n_ind)]
+            for _, i in sorted(x for x in nobs if x[0] > 0)[:(2 if self.thorough else 1)]:
+                terms = [self.app(att, st, i, j, k) for j in range(n_vis) for k in range(n_feat) if float(yw[i, j, k]) > 0]
+                o = _val(st[node])[i]
+                sc = float(attach_scale(st, kind, model)[i])
+                self.add("(" + " + ".join(terms) + ")", o, _tolq(sc, 1e-5), what="attachment", index=[i], terms=len(terms), **cfg)
+            if kind == "joint":
+                ev = f"gen_joint_event{sfx}"
+                for i in self.rng.sample(range(n_ind), min(3 if self.thorough else 2, n_ind)):
+                    o = _val(st["nll_attach_event_ind"]).reshape(n_ind, -1)[i, 0]
+                    self.add(self.app(ev, st, i), o, _tolq(float(o), 1e-5), what="event", index=[i], **cfg)
+        if not src:
+            return
+        # the direction, the metric, the basis computed from the population values, the two matrix products
+        ob = st.dag["orthonormal_basis"].f
+        dname, gname = ob.parameters
+        k = self.rng.randrange(n_feat)
+        for role, node in (("dir", dname), ("G", gname)):
+            gen = f"gen_{k_}_{role}"
+            o = _val(st[node]).reshape(-1)
+            o = o[k] if o.numel() > 1 else o[0]
+            self.add(self.app(gen, st, k=k) if self.sigs[gen] else gen, o, _tolq(float(o), 3e-6), what=f"basis-argument:{role}", index=[k], **cfg)
+        B = _val(st["orthonormal_basis"])
+        if n_feat <= 4:
+            args = []
+            for p in self.sigs[f"gen_{k_}_basis"]:
+                args.append(_Rl(_val(st[p[:-2]]).reshape(-1).tolist()) if p.endswith("_l") else _R(_val(st[p]).reshape(-1)[0]))
+            for _ in range(2 if self.thorough else 1):
+                r, c = self.rng.randrange(B.shape[0]), self.rng.randrange(B.shape[1])
+                self.add(f"nth {c} (nth {r} (gen_{k_}_basis {' '.join(args)}) []) 0", B[r, c], _tolq(1, 4e-6), what="basis-from-population-values",
+                         index=[r, c], **cfg)
+        betas, M, S, W = _val(st["betas"]), _val(st["mixing_matrix"]), _val(st["sources"]), _val(st["space_shifts"])
+        s, c = self.rng.randrange(M.shape[0]), self.rng.randrange(M.shape[1])
+        sc = float((B[c].double().abs() * betas[:, s].double().abs()).sum())
+        self.add(f"nth {c} (nth {s} (gen_{k_}_mixing {_Rm(B.tolist())} {_Rm(betas.tolist())}) []) 0", M[s, c], _tolq(sc, 3e-6),
+                 what="mixing-matrix", index=[s, c], **cfg)
+        i, c = self.rng.randrange(W.shape[0]), self.rng.randrange(W.shape[1])
+        sc = float((S[i].double().abs() * M[:, c].double().abs()).sum())
+        self.add(f"nth {c} (nth 0 (gen_{k_}_space_shifts {_Rm([S[i].tolist()])} {_Rm(M.tolist())}) []) 0", W[i, c], _tolq(sc, 3e-6),
+                 what="space-shift", index=[i, c], **cfg)
+
+    def prove(self):
+        names = sorted(self.sigs) + [f"gen_{SHORT[k]}_{x}" for k in KINDS_ORTHO for x in ("basis", "mixing", "space_shifts")] + ["gen_ortho_basis"]
+        hdr = T3_HEADER_TMPL.replace("GEN_NAMES", " ".join(dict.fromkeys(names))).replace("LIST_FUNS", LIST_FUNS)
+        return self.run.interval_lemmas("t3", hdr, self.lemmas, "t3.", shard=max(12, len(self.lemmas) // (14 if self.thorough else 8) + 1))
+
+
+def basis_failures(inp):
+    """the real compute_orthonormal_basis on an explicit direction / metric: kept columns orthogonal to G o d
+    (precondition of the models: first coordinate of G o d non-zero).  Returns (failures, basis or None)."""
+    import torch
+    from leaspy.utils.linalg import compute_orthonormal_basis
+    dt = getattr(torch, inp.get("dtype", "float32"))
+    d, G = torch.tensor(inp["d"], dtype=dt), torch.tensor(inp["G"], dtype=dt)
+    try:
+        B = compute_orthonormal_basis(d, G)
+    except Exception as e:
+        return [(f"basis:raises:{type(e).__name__}", f"compute_orthonormal_basis raised {type(e).__name__}: {e}", None, None)], None
+    n = len(inp["d"])
+    if tuple(B.shape) != (n, n - 1):
+        return [("basis:shape", f"basis has shape {list(B.shape)} for dimension {n}", [n, n - 1], list(B.shape))], B
+    D = (G.double() * d.double())
+    if float(D[0]) == 0.0:
+        return [], B
+    r = (B.double().t() @ D).abs() / (B.double().norm(dim=0) * D.norm()).clamp(min=1e-300)
+    if not torch.isfinite(r).all() or float(r.max()) > ORTHO_REL:
+        j = int(torch.nan_to_num(r, nan=float("inf")).argmax())
+        return [("basis:column-not-orthogonal", f"column {j} of the basis is not orthogonal to G o d: |q.Gd|/(|q||Gd|) = {float(r[j]):.3g}",
+                 f"<= {ORTHO_REL}", float(r[j]))], B
+    return [], B
+
+
+def search_basis(run: Run, T, thorough: bool):
+    """dims 2-6, random dyadic direction (either sign) and metric: oracle + entry-wise enclosure of the generated function"""
+    rng = run.rng("basis")
+    per_dim = 6 if thorough else 3
+    for n in range(2, 7):
+        for c in range(per_dim):
+            d = [rng.choice([-1, 1]) * rng.randint(1, 64) / 16 for _ in range(n)]
+            G = [rng.randint(1, 32) / 8 for _ in range(n)]
+            if c == 1:
+                d[0] = -abs(d[0])
+            if c == 2:
+                d[0] = 0.0          # the region of C10_orthogonal_first_zero_refuted: the tie must hold there too
+                d[1] = d[1] or 1.0
+            inp = dict(what="basis", d=d, G=G, dtype="float32")
+            fails, B = basis_failures(inp)
+            run.case(("basis", tuple(d), tuple(G)), nontrivial=d[0] != 0)
+            run.count("basis", f"dim={n}/first={'zero' if d[0] == 0 else ('neg' if d[0] < 0 else 'pos')}")
+            for sig, what, e, o in fails:
+                run.fail(sig, what, inp, expected=e, observed=o)
+            if T is not None and B is not None and tuple(B.shape) == (n, n - 1):
+                cells = [(r, q) for r in range(n) for q in range(n - 1)]
+                if n > 4 and thorough:
+                    cells = rng.sample(cells, 8)
+                elif n > 2 and not thorough:
+                    cells = rng.sample(cells, 3 if n == 3 else 2)
+                for r, q in cells:
+                    T.add(f"nth {q} (nth {r} (gen_ortho_basis {_Rl(d)} {_Rl(G)}) []) 0", B[r, q], _tolq(1, 3e-6), what="compute_orthonormal_basis",
+                          d=d, G=G, index=[r, q])
+    # the witness of C10_orthogonal_first_zero_refuted on the real function: reproduced, recorded — not a property failure,
+    # no model kind passes a direction with a vanishing first coordinate (C10_direction_positive)
+    import torch
+    _, B = basis_failures(dict(d=[0.0, 1.0], G=[1.0, 1.0]))
+    if B is not None:
+        dot = float((B.double().t() @ torch.tensor([0.0, 1.0], dtype=torch.float64))[0])
+        run.extra["first_zero_witness_on_code"] = dict(d=[0, 1], G=[1, 1], basis=B.tolist(), column_dot_Gd=dot,
+                                                       agrees_with_theorem=abs(dot) > 0.5)
+        if abs(dot) <= 0.5:
+            run.broken("correspondence:first-zero-witness", f"the code returns a column orthogonal to G o d on the witness of "
+                       f"C10_orthogonal_first_zero_refuted (dot = {dot})", kind="broken-correspondence")
+
+
+# ============================================================================== short real fits (recording wrappers only)
+
+
+class _StopFit(Exception):
+    pass
+
+
+def eval_fit(inp):
+    """A short real fit (harness/synth.py) in which the model instance's compute_sufficient_statistics is wrapped — the real
+    method is always the one that runs — so that (a) and (b) are checked at every iteration.  Returns (failures, log);
+    each failure is (signature, what, expected, observed, iteration)."""
+    from harness import synth
+    kind, nf, sd = inp["kind"], inp["n_feat"], inp["source_dimension"]
+    fails, log = [], []
+    try:
+        model = synth.make_model(kind, nf, sd)
+    except Exception as e:
+        return [(f"fit:{kind}:setup-raises:{type(e).__name__}", f"{type(e).__name__}: {e}", None, None, 0)], log
+    real = model.compute_sufficient_statistics
+
+    def css(state):
+        k = len(log) + 1
+        rec = dict(k=k)
+        f, i = ortho_failures(kind, state, f"iteration {k}, before the statistics")
+        rec.update({"ortho:" + a: b for a, b in i.items()})
+        if kind in KINDS_GAUGE:
+            holder = {}
+
+            def call(st):
+                holder["r"] = real(st)
+            f2, i2 = recentre_failures(kind, model, state, call=call)
+            rec.update(i2)
+            f += f2
+        else:
+            holder = {"r": real(state)}
+        if "r" in holder:
+            f3, i3 = ortho_failures(kind, state, f"iteration {k}, after the statistics")
+            f += [x for x in f3 if x[0] not in {y[0] for y in f}]
+        log.append(rec)
+        fails.extend(x + (k,) for x in f)
+        if "r" not in holder:
+            raise _StopFit()
+        return holder["r"]
+
+    model.compute_sufficient_statistics = css
+    try:
+        synth.fit(kind, n_iter=inp["n_iter"], seed=inp["seed"], n_ind=inp["n_ind"], n_feat=nf, source_dimension=sd, model=model)
+    except _StopFit:
+        pass
+    except Exception as e:
+        fails.append((f"fit:{kind}:raises:{type(e).__name__}", f"fit raised {type(e).__name__}: {e}", None, None, len(log) + 1))
+    finally:
+        try:
+            del model.compute_sufficient_statistics
+        except AttributeError:
+            pass
+    if not fails and len(log) != inp["n_iter"]:
+        fails.append((f"fit:{kind}:statistics-calls", f"compute_sufficient_statistics was called {len(log)} times in a fit of {inp['n_iter']} iterations",
+                      inp["n_iter"], len(log), len(log)))
+    return fails, log
+
+
+FIT_CONFIGS = [("logistic", 3, 2, 6), ("logistic", 1, None, 4), ("linear", 3, 1, 5), ("joint", 3, 1, 5), ("joint", 1, None, 4),
+               ("shared_speed_logistic", 3, 1, 4)]
+FIT_CONFIGS_THOROUGH = [("logistic", 4, 3, 25), ("logistic", 3, 0, 12), ("linear", 1, None, 12), ("linear", 4, 2, 20), ("joint", 3, 2, 20),
+                        ("shared_speed_logistic", 4, 2, 15)]
+
+
+def search_fits(run: Run, thorough: bool):
+    for kind, nf, sd, n_iter in FIT_CONFIGS + (FIT_CONFIGS_THOROUGH if thorough else []):
+        inp = dict(what="fit", kind=kind, n_feat=nf, source_dimension=sd, n_iter=n_iter, seed=run.seed % 1000, n_ind=10)
+        fails, log = eval_fit(inp)
+        for rec in log:
+            run.case(("fit", kind, nf, sd, n_iter, inp["seed"], rec["k"]),
+                     nontrivial=(kind in KINDS_GAUGE and abs(rec.get("mean_before", 0.0)) > 1e-4) or rec.get("ortho:mixing-row-nontrivial", False))
+            run.count("kind", f"fit:{kind}/{'sources' if sd else 'no-sources'}")
+        if log and len(run.samples) < 5:
+            run.sample(dict(inp, iterations=[{k: (round(v, 10) if isinstance(v, float) else v) for k, v in r.items()} for r in log[:3]]))
+        done = set()
+        for sig, what, e, o, k in fails:
+            small = dict(inp, iteration=k)
+            if sig not in done and k < n_iter and sig not in run.known:
+                done.add(sig)
+                x = dict(inp, n_iter=k)
+                if any(s == sig for s, *_ in eval_fit(x)[0]):
+                    small = dict(x, iteration=k)
+            run.fail(sig, f"real fit, iteration {k}: {what}", small, expected=e, observed=o)
+
+
+# ============================================================================== main / replay
+
+
+def check(run: Run, tie: bool):
+    from harness.common import use_impl
+    use_impl()
+    thorough = run.tier == "thorough"
+    run.rule = ("(1) REAL model states (model_factory + initialize + put_data_variables on a synthetic cohort) of logistic / linear / joint / "
+                "shared-speed x {univariate, no sources, 1-3 sources}: every population and individual latent variable set through "
+                "state[name] = tensor to random dyadic values (styles: plain, wide ranges, all xi equal, first coordinate dominant; mean xi "
+                "shifted by 0, +-0.25, +-0.75, +-2), then the real compute_sufficient_statistics: model / nll_attach_ind / nll_attach_y_ind / "
+                "nll_attach_event_ind before vs after, mean xi after, rows of mixing_matrix and space_shifts against G o d recomputed from "
+                "the `metric` and `v0` the trajectory itself uses; (2) compute_orthonormal_basis on random directions (either sign, zero first coordinate) and metrics, dims 2-6; "
+                "(3) short real fits with a recording wrapper around compute_sufficient_statistics, same oracles at every iteration; "
+                "(4) Coq-Interval lemmas: entries of model, attachment sums, event terms, v0 / metric_sqr, orthonormal_basis, mixing_matrix, "
+                "space_shifts, re-centred xi / log_v0 / n_log_nu of those very states against the GENERATED definitions.  "
+                "Non-trivial = |mean xi| > 1e-3 before the step (gauge) or a non-zero mixing row (orthogonality); distinct by values.")
+    T = T3(run, run.extra["generated_signatures"]) if tie and "generated_signatures" in run.extra else None
+    run.log("implementation: compute_orthonormal_basis")
+    search_basis(run, T, thorough)
+    run.log("implementation: real states")
+    search_states(run, T, thorough)
+    run.log("implementation: short real fits")
+    search_fits(run, thorough)
+    if T is not None:
+        run.log(f"T3: {len(T.lemmas)} interval lemmas")
+        bad = T.prove()
+        run.extra["interval_lemmas"] = len(T.lemmas)
+        if bad:
+            i = bad[0]
+            run.broken("correspondence:enclosure", f"{len(bad)} of {len(T.lemmas)} interval lemmas fail; first: {T.lemmas[i][:1500]}\n"
+                       f"from: {json.dumps(T.meta[i], default=str)[:600]}", kind="broken-correspondence")
+            run.extra["interval_lemmas_failing"] = [T.meta[j].get("what") for j in bad[:20]]
+
+
+def main(run: Run):
+    ok_t = translate(run)
+    ok_p = run.prove("C10", OBLIGATIONS) if ok_t else False
+    run.assumptions += [
+        "theorems are over the reals; the oracles allow float32 rounding: values before / after the step within 1e-5 * (1 + |value|) "
+        "(attachment sums: 1 + sum of the absolute values of their terms) plus the first-order propagation of the float32 roundings "
+        "of log_v0 + m, xi - m and of the recomputed basis (rounding_allowance), |mean xi| <= 1e-6 * max(1, max |xi|), "
+        "|w . Gv0| <= 1e-5 |w| |Gv0|",
+        "population values stay where float32 exp neither underflows nor overflows (|log_v0|, |log_g| <= 10): for log_v0[0] < -103 "
+        "exp underflows to 0, torch.sign(0) = 0 and the basis is the one of C10_orthogonal_first_zero_refuted — a float range effect, "
+        "no real value of the velocities gives it (C10_direction_positive); shared-speed random states keep log_g in [-1, 2], "
+        "deltas in [-1, 1] (float32 cancellation 1 - gamma in g_metric beyond)",
+        "reads of derived variables after the two puts of the step are fresh (C01)",
+    ]
+    run.explanation = ("Theorems over R about definitions regenerated from the code on every run (traced node functions, ast translation of "
+                       "compute_orthonormal_basis and of both _center_xi_realizations, DAG introspection); interval lemmas compare those "
+                       "definitions entry-wise with what real model states hold; the property itself is then checked on the implementation "
+                       "(before / after the real step, orthogonality against a from-scratch G o d) on random real states and inside real fits.")
+    try:
+        check(run, tie=ok_t)
+    except Exception as e:
+        import traceback
+        run.broken("search", f"{type(e).__name__}: {e}\n{traceback.format_exc()[-1500:]}")
+    return run.finish()
+
+
+def replay(run: Run, path: str):
+    """Re-run one recorded input on the current tree: prints every oracle verdict, returns 1 when the recorded failure is still there."""
+    from harness.common import use_impl
+    use_impl()
+    d = json.load(open(path))
+    inp = d.get("input")
+    if not isinstance(inp, dict) or "what" not in inp:
+        print("replay: this file records a broken obligation / correspondence, re-running the check itself:",
+              [b["name"] for b in d.get("broken", d.get("also_broken", []))])
+        return main(run)
+    sig = d.get("signature")
+    if inp["what"] == "state":
+        fails, info = eval_state(inp)
+        print("state:", json.dumps({k: inp[k] for k in ("kind", "n_feat", "source_dimension", "cohort")}))
+        for k, v in sorted(info.items()):
+            print(f"  {k} = {v}")
+    elif inp["what"] == "basis":
+        fails, B = basis_failures(inp)
+        print("compute_orthonormal_basis(d =", inp["d"], ", G =", inp["G"], ") =", None if B is None else B.tolist())
+    elif inp["what"] == "fit":
+        f5, log = eval_fit(inp)
+        fails = [x[:4] for x in f5]
+        for rec in log:
+            print("  iteration", json.dumps(rec, default=str))
+    else:
+        print("replay: unknown input kind", inp["what"])
+        return 2
+    for s, what, e, o in fails:
+        print(f"FAIL {s}: {what} (expected {e}, observed {o})")
+    still = any(s == sig for s, *_ in fails) if sig else bool(fails)
+    if sig and not still and fails:
+        print(f"recorded signature {sig} no longer fails, but other oracles do")
+    print("REPLAY", "FAILS" if (still or fails) else "passes")
+    return 1 if (still or fails) else 0
